@@ -70,6 +70,7 @@ import Fcgi.Props.C11NoFuel
 import Fcgi.Props.C11Unread
 import Fcgi.Props.C11NoFuel2
 import Fcgi.Props.C11Abort2
+import Fcgi.Props.C11Abort3
 import Fcgi.Props.C12
 import Fcgi.Props.C12Inv
 import Fcgi.Props.C12Wf
@@ -92,6 +93,7 @@ import Fcgi.Props.C12Chain4
 import Fcgi.Props.C12NoFuel2
 import Fcgi.Props.C12NoFuel3
 import Fcgi.Props.C12Chain5
+import Fcgi.Props.C12NoFuel4
 import Fcgi.Props.C13
 import Fcgi.Props.C13Conn
 import Fcgi.Props.C14b
@@ -112,7 +114,7 @@ import Fcgi.Props.C18None
 import Fcgi.Props.C18None2
 import Fcgi.Props.C19
 import Fcgi.Props.C20
-import Fcgi.Props.C12NoFuel4
+import Fcgi.Props.C07NoFuel7
 
 /-!
 # Headline — one checked statement per property
@@ -145,10 +147,10 @@ GONE from the core family (C07 Clauses 1–4, `Props/C07NoFuel.lean`: single req
 requests) and from the echo Responder (C07 Clauses 21, 23, 25, 26) and the Filter gate theorems (C09 Clauses 11–17).  It is also gone from C07 Clause 6 (`C07NoFuel2`), C11 Clause 5
 (`C11NoFuel`), C12 Clauses 1, 5, 9, 10 (`C12NoFuel`: Responder EOF / failure at any offset, write error, read error at
 any index) and C14 Clauses 1–2 (`C14NoFuel`).  The chain bundles are `Sent.OKn` / `UReq.OKn`
-(no cost field; `Props/C07NoFuel.lean`, `C07NoFuel6.lean`, `C11NoFuel2.lean`, `C12NoFuel2.lean`, `C12NoFuel3.lean`).  It REMAINS, as an
-artefact of the proofs only (removable by the recipe of `Proofs/E2ENoFuel.lean`), in TWO conjuncts: C07 Clauses 10 and 12
-(`2·n + …`: the number of `fill_buf`/`consume` rounds; Clause 10 also `|content| ≤ n`); C12 Clauses 2, 3 lost it in
-`Props/C12NoFuel4.lean`.
+(no cost field; `Props/C07NoFuel.lean`, `C07NoFuel6.lean`, `C11NoFuel2.lean`, `C12NoFuel2.lean`, `C12NoFuel3.lean`).  C12 Clauses 2, 3 lost it in
+`Props/C12NoFuel4.lean`, C07 Clauses 10 and 12 (the `AsyncBufRead` handlers; it bounded the number of `fill_buf`/`consume`
+rounds) in `Props/C07NoFuel7.lean`.  NO conjunct of this file has a cost hypothesis `hhf` of its own any more (Clause 10
+keeps `|content| ≤ n`, a hypothesis about the script: it reads to end of stream).
 `C11Clause7` is the `_anysize` table of
 `Props/C11FilterAnysize.lean` (no `|Stdin wire| ≤ 31000`).
 
@@ -1524,23 +1526,22 @@ end Fcgi.Headline
   `Props/C07Writers.lean` … `C07Writers4.lean`; 17–18, 20: a Filter), the echo Responder — writes
   interleaved with reads (Clauses 21–22, `Props/C07Echo.lean`).  All e2e clauses are size-free: no bound on
   the wire length or the buffer.  MODEL FUEL: since the model's handler fuel pays for what is left of the
-  handler script (`Props/C07ScriptFuel.lean`), Clauses 1–4 (`Props/C07NoFuel.lean`), 6, 13–18 and 21–26 have
-  NO fuel hypothesis; in the other clauses `hhf` is still in the statement but is now an artefact of their
-  PROOFS only (removable by the recipe of `Proofs/E2ENoFuel.lean`): `wcost |data| + c ≤ 1000` (Clause 8;
-  Clause 6 is the `_nofuel` version of `Props/C07NoFuel2.lean`), the number of `fill_buf`/`consume` rounds
-  `2·n + …` (Clauses 10–12; Clause 10 also needs `|content| ≤ n`), Clauses 13–18 (`Props/C07NoFuel3.lean`,
-  `C07NoFuel4.lean`) have NO cost hypothesis either; Clauses 15–18 need `hfl` (no error among the flush
-  answers; `hfuel` then counts `|t.fl|` too) and nothing about the later handler scripts
-  (`E2E.stepConn_fs`); Clauses 19–20 (`Props/C07ScriptFuel.lean`) are the reason no cost hypothesis is
-  needed: the fuel guard of the handler poll is unreachable for every script (under `SInv r.sp`).  Clause
-  21: reads of ONE byte (`m = 1`: the unrolled script is then independent of the transport's chunking) and
-  `hquiet` (the noise inside Stdin owes no reply); Clauses 23–24 (`Props/C07Echo2.lean`, ledger
-  `Proofs/E2ELedger`) remove `hquiet`: the log is then an interleaving of replies and handler records (not
-  stated: that no reply RECORD is cut by a handler record).  Clauses 25–26 (`Props/C07Echo3.lean`) add what
-  the reads RETURNED — the write-log conclusions of Clauses 21 and 23 alone would also hold if every
-  `read(1)` returned garbage, because the model's scripts carry their write data —: the read events
-  `r=1:<b>` (one per content byte, in order) and `r=0:-` are an in-order sublist of the trace (not proved:
-  that no other `r=` event occurs).
+  handler script (`Props/C07ScriptFuel.lean`), NO clause of C07 has a cost hypothesis `hhf` any more:
+  Clauses 1–4 (`Props/C07NoFuel.lean`), 6, 13–18 and 21–26 have none; Clauses 10–12
+  (`Props/C07NoFuel7.lean`, `C07NoFuel5.lean`: any number of `fill_buf`/`consume` rounds; Clause 10 still
+  needs `|content| ≤ n`, a hypothesis about the script) neither; Clause 6 is the `_nofuel` version of
+  `Props/C07NoFuel2.lean`; Clauses 13–18 (`Props/C07NoFuel3.lean`, `C07NoFuel4.lean`) have NO cost
+  hypothesis either; Clauses 15–18 need `hfl` (no error among the flush answers; `hfuel` then counts
+  `|t.fl|` too) and nothing about the later handler scripts (`E2E.stepConn_fs`); Clauses 19–20
+  (`Props/C07ScriptFuel.lean`) are the reason no cost hypothesis is needed: the fuel guard of the handler
+  poll is unreachable for every script (under `SInv r.sp`).  Clause 21: reads of ONE byte (`m = 1`: the
+  unrolled script is then independent of the transport's chunking) and `hquiet` (the noise inside Stdin owes
+  no reply); Clauses 23–24 (`Props/C07Echo2.lean`, ledger `Proofs/E2ELedger`) remove `hquiet`: the log is
+  then an interleaving of replies and handler records (not stated: that no reply RECORD is cut by a handler
+  record).  Clauses 25–26 (`Props/C07Echo3.lean`) add what the reads RETURNED — the write-log conclusions of
+  Clauses 21 and 23 alone would also hold if every `read(1)` returned garbage, because the model's scripts
+  carry their write data —: the read events `r=1:<b>` (one per content byte, in order) and `r=0:-` are an
+  in-order sublist of the trace (not proved: that no other `r=` event occurs).
 
 **The conjuncts of `C07_headline`.**
 1. `C07E.single_request_e2e_nofuel` — Responder, canonical handler, any benign transport, ANY wire length:
@@ -1559,12 +1560,12 @@ end Fcgi.Headline
 7. `C07U.unread_prefix_e2e_unbounded` — handler reads a strict prefix (no size bound)
 8. `C07U.authorizer_tail_e2e_nofuel` — Authorizer followed by more traffic
 9. `C07U.unread_filter_e2e_unbounded` — a Filter left wholly unread
-10. `C07B.single_request_bufread_e2e_unbounded` — a handler that drains Stdin through `AsyncBufRead`
-   (`fill_buf`/`consume`), no size bound
+10. `C07B.single_request_bufread_e2e_nofuel` — a handler that drains Stdin through `AsyncBufRead`
+   (`fill_buf`/`consume`): any number of rounds `n ≥ |content|`, any output (no size bound, no cost hypothesis)
 11. `C07B.bufread_then_readall_e2e_nofuel` — `fill_buf`/`consume` followed by `read_to_end`: any number of
    rounds, any output (no size bound, no cost hypothesis)
-12. `C07B.bufread_part_e2e_unbounded` — a handler that consumes only part of what `fill_buf` showed, no size
-   bound
+12. `C07B.bufread_part_e2e_nofuel` — a handler that consumes only part of what `fill_buf` showed: any number
+   of rounds (no size bound, no cost hypothesis)
 13. `C07W.single_request_writers_e2e_nofuel` — TWO writers (Stdout, Stderr), ANY sequence of `write_all`s
    (empty, or longer than 65 535 bytes = several records): every write is on the wire exactly once, in script
    order, records never interleaved; no size bound
@@ -1845,7 +1846,7 @@ end
 section
 namespace Fcgi.C07B
 open Fcgi Fcgi.Req Fcgi.Str Fcgi.Async Fcgi.Run Fcgi.Spec Fcgi.E2E Fcgi.C07E Fcgi.C07U
-/-- a handler that drains Stdin through `AsyncBufRead` (`fill_buf`/`consume`), no size bound  (= `Fcgi.C07B.single_request_bufread_e2e_unbounded`, `Props/C07Unbounded.lean`) -/
+/-- a handler that drains Stdin through `AsyncBufRead` (`fill_buf`/`consume`): any number of rounds `n ≥ |content|`, any output (no size bound, no cost hypothesis)  (= `Fcgi.C07B.single_request_bufread_e2e_nofuel`, `Props/C07NoFuel7.lean`) -/
 def C07Clause10 : Prop :=
   ∀ {p : Preamble} {recs : List Rec} {content : Bytes} {srecs : List Rec}
     {b mc n k : Nat} {data : Bytes} {st : ExitStatus} {more : List (List HOp × Bool)} {t : Transport} {fuel : Nat}
@@ -1855,8 +1856,7 @@ def C07Clause10 : Prop :=
     (hs : StreamRecs p.id 5 content srecs) (hsn : NoiseFits (alignedBufsize b) srecs)
     (hk : 0 < k) (hn : content.length ≤ n)
     (hin : t.input = serAll recs ++ serAll srecs) (hben : Ben t) (hev : hsCount t.events = 0)
-    (hfuel : t.rd.length + t.wr.length + 1 ≤ fuel)
-    (hhf : 2 * n + wcost data.length + 10 ≤ 1000),
+    (hfuel : t.rd.length + t.wr.length + 1 ≤ fuel),
     ∃ c' fin O₁ O₂ shown pad res,
       runTask fuel (connS b mc t ((bscript n k data st, true) :: more)) 0 none = (c', fin) ∧
       O₁ ++ O₂ = owedStream p.id 5 mc srecs ∧
@@ -1864,7 +1864,7 @@ def C07Clause10 : Prop :=
 
 theorem C07Clause10_holds : C07Clause10 := by
   unfold C07Clause10
-  exact @single_request_bufread_e2e_unbounded
+  exact @single_request_bufread_e2e_nofuel
 
 end Fcgi.C07B
 end
@@ -1897,7 +1897,7 @@ end
 section
 namespace Fcgi.C07B
 open Fcgi Fcgi.Req Fcgi.Str Fcgi.Async Fcgi.Run Fcgi.Spec Fcgi.E2E Fcgi.C07E Fcgi.C07U
-/-- a handler that consumes only part of what `fill_buf` showed, no size bound  (= `Fcgi.C07B.bufread_part_e2e_unbounded`, `Props/C07Unbounded.lean`) -/
+/-- a handler that consumes only part of what `fill_buf` showed: any number of rounds (no size bound, no cost hypothesis)  (= `Fcgi.C07B.bufread_part_e2e_nofuel`, `Props/C07NoFuel7.lean`) -/
 def C07Clause12 : Prop :=
   ∀ {p : Preamble} {recs : List Rec} {content : Bytes} {srecs : List Rec}
     {b mc n k : Nat} {st : ExitStatus} {more : List (List HOp × Bool)} {t : Transport} {fuel : Nat}
@@ -1907,15 +1907,14 @@ def C07Clause12 : Prop :=
     (hs : StreamRecs p.id 5 content srecs) (hsn : NoiseFits (alignedBufsize b) srecs)
     (hnb : ∀ r ∈ srecs, r.rtype.toNat ≠ RT.beginRequest)
     (hin : t.input = serAll recs ++ serAll srecs) (hben : Ben t) (hev : hsCount t.events = 0)
-    (hfuel : t.rd.length + t.wr.length + 1 ≤ fuel)
-    (hhf : 2 * n + 10 ≤ 1000),
+    (hfuel : t.rd.length + t.wr.length + 1 ≤ fuel),
     ∃ c' fin s₁ s₂ shown,
       runTask fuel (connS b mc t ((rounds n k ++ [.ret st], true) :: more)) 0 none = (c', fin) ∧
       BufReadPartOutcome p recs content srecs s₁ s₂ k shown b mc st more t c' fin
 
 theorem C07Clause12_holds : C07Clause12 := by
   unfold C07Clause12
-  exact @bufread_part_e2e_unbounded
+  exact @bufread_part_e2e_nofuel
 
 end Fcgi.C07B
 end
